@@ -2,7 +2,7 @@
 # tools/seedall.sh <PROP> <mutation-dir> [extra props...] : verify, run the checks, and store the result under /verif/seeded/
 set -u
 P=$1; D=$(readlink -f "$2"); shift 2
-name=$(echo "$D" | sed 's#/tmp/wt2/\(C[0-9]*\)/mutations/#\1-r2-#; s#/tmp/wt4/\(C[0-9]*\)/mutations/#\1-r3-#; s#/tmp/wt/##; s#/mutations/#-#; s#/#-#g')
+name=$(echo "$D" | sed 's#/tmp/wt2/\(C[0-9]*\)/mutations/#\1-r2-#; s#/tmp/wt4/\(C[0-9]*\)/mutations/#\1-r3-#; s#/tmp/wt6/\(C[0-9]*\)/mutations/#\1-r4-#; s#/tmp/wt/##; s#/mutations/#-#; s#/#-#g')
 out=/verif/seeded/$name
 mkdir -p "$out"
 T=$(dirname "$(readlink -f "$0")")
